@@ -8,6 +8,7 @@ CONSTANTS
   Wipeouts = TRUE
   Collide = TRUE
   Times = {1, 2}
+  KeepGoing = {FALSE}
   Design = "atomic"
 SPECIFICATION Spec
 VIEW view
